@@ -11,7 +11,8 @@ on a feasible cyclic system is the known finding static_solver_throws_on_feasibl
 Histories may also change Variable::weight between solves (op W; model: Vpsc/VpscModelW.v, proofs: Vpsc/VpscWeight.v)
 and re-use Variable / Constraint OBJECTS across successive IncSolvers (ops R, P: destroy the solver, build a new one on
 a subset of the constraint objects, addConstraint the remaining objects; the model has no object identity and starts
-a fresh state - every segment is a history from `init`, which the theorems cover)."""
+a fresh state - every segment is a history from `init`, which the theorems cover).
+Sets mp-resolve-*: mean-preserving re-solves (mostly satisfy() passes; vlib/c01lib.gen_mp_histories, DESIGN 9.19)."""
 import os, json
 from fractions import Fraction as Fr
 from vlib import common as C
